@@ -43,7 +43,7 @@ theorem length_extTail (buf : Bytes) : (extTail buf).length = buf.length := by
 /-! ### option writers produce `calculate_options_size` octets -/
 
 theorem ip_opt_cond (t : Nat) (h : t < 256) (h80 : t ≠ 0x80) (h81 : t ≠ 0x81) :
-    (t / 32 % 4 ≠ 0 ∨ t % 32 > 1) ↔ t > 1 := by omega
+    (t / 128 % 2 ≠ 0 ∨ t / 32 % 4 ≠ 0 ∨ t % 32 > 1) ↔ t > 1 := by omega
 
 theorem writeTlvOpts_cons (t : Nat) (d : Bytes) (r : List (Nat × Bytes)) :
     writeTlvOpts ((t, d) :: r) =
@@ -51,7 +51,7 @@ theorem writeTlvOpts_cons (t : Nat) (d : Bytes) (r : List (Nat × Bytes)) :
 
 theorem ipOptSize_aux (opts : List (Nat × Bytes))
     (h : opts.all (fun (t, d) => t < 256 && t != 0x80 && t != 0x81 && (t > 1 || d.isEmpty)) = true) (a : Nat) :
-    opts.foldl (fun acc (t, d) => acc + 1 + (if t / 32 % 4 ≠ 0 ∨ t % 32 > 1 then 1 + d.length else 0)) a
+    opts.foldl (fun acc (t, d) => acc + 1 + (if t / 128 % 2 ≠ 0 ∨ t / 32 % 4 ≠ 0 ∨ t % 32 > 1 then 1 + d.length else 0)) a
       = a + (writeTlvOpts opts).length := by
   induction opts generalizing a with
   | nil => rfl
@@ -63,9 +63,9 @@ theorem ipOptSize_aux (opts : List (Nat × Bytes))
     rw [ih hr, writeTlvOpts_cons]
     have c := ip_opt_cond t (by simpa using h256) (by simpa using h80) (by simpa using h81)
     by_cases ht : t > 1
-    · have : (t / 32 % 4 ≠ 0 ∨ t % 32 > 1) := c.mpr ht
+    · have : (t / 128 % 2 ≠ 0 ∨ t / 32 % 4 ≠ 0 ∨ t % 32 > 1) := c.mpr ht
       simp only [ht, this, if_true, List.length_cons, List.length_append]; omega
-    · have : ¬ (t / 32 % 4 ≠ 0 ∨ t % 32 > 1) := fun x => ht (c.mp x)
+    · have : ¬ (t / 128 % 2 ≠ 0 ∨ t / 32 % 4 ≠ 0 ∨ t % 32 > 1) := fun x => ht (c.mp x)
       simp only [ht, this, if_false, List.length_cons]; omega
 
 theorem length_writeTlvOpts_ip (opts : List (Nat × Bytes))
